@@ -5,12 +5,14 @@
 import json, os, random, time
 from . import core
 
-TYPES = ['iph', 'eth', 'sll', 'vlan', 'macsec', 'arp', 'ipv4', 'auth', 'ipv6', 'udp', 'tcp', 'frag', 'rawext', 'icmp6']
+TYPES = ['iph', 'ext4', 'ext6', 'icmp4', 'eth', 'sll', 'vlan', 'macsec', 'arp', 'ipv4', 'auth', 'ipv6', 'udp', 'tcp', 'frag', 'rawext', 'icmp6']
 
 
 def tag_props(tag):
-    if tag.startswith('read.success_despite_fault'):
+    if tag.startswith('read.success_despite_fault') or (tag.startswith('skip.') and tag.endswith('.read.success_despite_fault')):
         return ['C06', 'C16']     # a reader fault that does not surface
+    if tag.startswith('skip.'):
+        return ['C06']            # slice and reader versions of the skip helpers disagree with the format / with each other
     if tag.startswith('read.'):
         return ['C06']            # reader and slice decoder disagree (verdict, reason, value, bytes consumed)
     if tag.startswith('slice.'):
@@ -76,6 +78,45 @@ def cases(wire_cases, tier, seed):
             nh = kind
         pl = len(body)
         out.append({'type': 'iph', 'bytes': [0x60, 0, 0, 0, pl >> 8, pl & 255, nh, 64] + list(range(1, 17)) + list(range(101, 117)) + body})
+    # typed ICMPv4 header: timestamp messages carry 20 bytes
+    for t, c0 in ((13, 0), (14, 0), (13, 1), (8, 0), (3, 4), (12, 0), (200, 7)):
+        for n in (0, 4, 7, 8, 9, 19, 20, 21, 30):
+            out.append({'type': 'icmp4', 'bytes': [t, c0, 1, 2] + [r.randrange(256) for _ in range(max(0, n - 4))] if n >= 4 else [t, c0, 1, 2][:n]})
+    # extension header chains behind a first ip number: Ipv6Extensions / Ipv4Extensions read vs from_slice, Ipv6Header::skip_*
+    def gen_hdr(kind, nh):
+        if kind == 44:
+            return [nh, r.choice([0, 9]), r.randrange(256), r.randrange(256)] + [r.randrange(256) for _ in range(4)]
+        if kind == 51:
+            u = r.choice([1, 1, 2, 4])
+            return [nh, u, r.choice([0, 7]), 0] + [r.randrange(256) for _ in range(4 * (u + 2) - 4)]
+        u = r.choice([0, 0, 1, 3])
+        return [nh, u] + [r.randrange(256) for _ in range(8 * (u + 1) - 2)]
+    kinds = [0, 43, 44, 51, 60, 135, 139, 140]
+    finals = [6, 17, 58, 59, 0, 50, 253, 41]
+    nchains = 60 if tier == 'quick' else 1500
+    for i in range(nchains):
+        if i < 12:
+            chain = [[], [0], [60], [43], [44], [51], [0, 60, 43, 44, 51, 60], [60, 60], [0, 0], [43, 43], [135], [139, 140, 60]][i]
+        else:
+            chain = [r.choice(kinds) for _ in range(r.randrange(0, 7))]
+        fin = r.choice(finals)
+        body, nh = [], fin
+        for kind in reversed(chain):
+            body = gen_hdr(kind, nh) + body
+            nh = kind
+        body = body + [r.randrange(256) for _ in range(r.choice([0, 0, 3, 9]))]
+        out.append({'type': 'ext6', 'start': nh, 'bytes': body})
+        if body:
+            cut = r.randrange(0, len(body))
+            out.append({'type': 'ext6', 'start': nh, 'bytes': body[:cut]})
+            d = list(body)
+            d[min(1, len(d) - 1)] = r.choice([0, 1, 2, 255])
+            out.append({'type': 'ext6', 'start': nh, 'bytes': d[:r.choice([len(d), max(0, len(d) - 5)])]})
+    for st in (51, 17, 0, 44):
+        for u in (0, 1, 2, 5):
+            a = [17, u, 0, 0] + [r.randrange(256) for _ in range(max(8, 4 * (u + 2) - 4))]
+            for cut in (len(a), 4 * (u + 2), max(0, 4 * (u + 2) - 1), 11, 12, 0):
+                out.append({'type': 'ext4', 'start': st, 'bytes': a[:cut]})
     for i, c in enumerate(out):
         c['id'] = 'i%d' % i
     return out
